@@ -102,6 +102,21 @@ Example C06_record_example_data :
                DNegZero;
                DArr AT_Uint16 [1; 0; 2; 0]]).
 Proof. exact rec_example_data. Qed.
+(* ... and, outside the fragment of the theorems but inside the model (and the correspondence run, which
+   sweeps this shape over list / node-children / map / record containers growing by 0..65 elements):
+   a forward reference in a list that keeps growing until its marker completes, [$a 1 2 3 4 &a:"x" $a].
+   The validator accepts it and the model fills the slot of the reference wherever the list has got to. *)
+Example C06_forward_reference_in_growing_list_accepted :
+  Rules.accepts_document Rules.default_rcfg
+    [EBeginDoc; EVersion 0; EList; ERefLocal [97]; EPosInt 1; EPosInt 2; EPosInt 3; EPosInt 4;
+     EMarker [97]; EStringArray 1 [120]; ERefLocal [97]; EEnd; EEndDoc] = true.
+Proof. vm_compute. reflexivity. Qed.
+Example C06_forward_reference_in_growing_list_builds :
+  build_untyped (fun b => Some b) (fun b => Some (b, b))
+    [EBeginDoc; EVersion 0; EList; ERefLocal [97]; EPosInt 1; EPosInt 2; EPosInt 3; EPosInt 4;
+     EMarker [97]; EStringArray 1 [120]; ERefLocal [97]; EEnd; EEndDoc] =
+  Ok (UList [UStr [120]; UUint 1; UUint 2; UUint 3; UUint 4; UStr [120]; UStr [120]]).
+Proof. vm_compute. reflexivity. Qed.
 
 (* ---- the full property, and its refutation ---- *)
 
